@@ -115,10 +115,20 @@ T_FULL = [None, {}, {"p|ipe": 1}, {"*": 1}, {"p|ipe": 2, "*": 1}]
 S_FULL = [None, 1]
 
 
+NULL = "<json null>"
+
+
+def _nulls(x):
+    if isinstance(x, dict):
+        return {k: _nulls(v) for k, v in x.items()}
+    return None if x == NULL else x
+
+
 def mk_doc(a, b, k, t, s):
     d = {}
     if a is not None:
-        d["a"] = copy.deepcopy(a)
+        # an explicit JSON null is a value like any other ("set this key to null"), not an absent key
+        d["a"] = _nulls(copy.deepcopy(a))
     if b is not None:
         d["b"] = list(b)
     if k is not None:
@@ -151,9 +161,10 @@ def patch_space(tier):
 def frag_space(tier):
     A4 = [None, {}, {"x": 1}, {"x": 2, "y": 1}]
     T4 = [None, {"p|ipe": 1}, {"*": 1}, {"p|ipe": 2, "*": 1}]
+    AN = A4 + [{"x": NULL}]
     if tier == "quick":
-        return ([A4, [None], K_FULL[:2], T4, S_FULL], [A4, [None], K_FULL[:2], T4, [None]])
-    return ([A4 + [{"y": 2}], [None, [1, 2]], K_FULL[:2], T4, S_FULL], [A4, [None, [2]], K_FULL[:2], T4, [None]])
+        return ([A4, [None], K_FULL[:2], T4, S_FULL], [AN, [None], K_FULL[:2], T4, [None]])
+    return ([AN + [{"y": 2}], [None, [1, 2]], K_FULL[:2], T4, S_FULL], [AN + [{"x": NULL, "y": 1}], [None, [2]], K_FULL[:2], T4, [None]])
 
 
 def _doc_from(spaces, idx):
@@ -372,6 +383,13 @@ def plan(tier):
         dict(name="patch", func="h_patch", shards=16 if q else 48, timeout=250 if q else 2500),
         dict(name="fragment", func="h_fragment", shards=12 if q else 32, timeout=250 if q else 2500),
         dict(name="chain", func="h_chain", shards=12 if q else 32, timeout=250 if q else 2500),
+    ] + [
+        # jsonpatch iterates over sets of keys: the operations it emits (and whether its move optimisation goes wrong)
+        # depend on the interpreter's string hash seed, so the patch round trip is explored under several seeds
+        dict(name="patch[hashseed=%d]" % hs, func="h_patch", shards=8 if q else 24, timeout=250 if q else 2500,
+             env={"PYTHONHASHSEED": hs}) for hs in ((1, 2, 3) if q else (1, 2, 3, 4, 5, 6, 7))
+    ] + [
+        dict(name="chain[hashseed=2]", func="h_chain", shards=8 if q else 24, timeout=250 if q else 2500, env={"PYTHONHASHSEED": 2}),
         dict(name="chain.symbolic-prios", func="h_chain_prio", shards=1, timeout=200 if q else 600,
              bound="reload priorities: unbounded symbolic non-negative ints"),
         dict(name="twin", func="h_twin", shards=1, timeout=60, expect="refuted"),
